@@ -1,6 +1,13 @@
 PROPERTY = {'id': 'C15',
- 'contract_modules': ['doctest_example', 'util_stream', 'checker', 'doctest_part', 'runner'],
+ 'contract_modules': ['doctest_example', 'util_stream', 'checker', 'doctest_part', 'runner', 'plugin'],
  'functions': ['xdoctest.doctest_example:DocTest.run',
+               'xdoctest.plugin:XDoctestItem.runtest',
+               'xdoctest.plugin:XDoctestModule.collect',
+               'xdoctest.plugin:_XDoctestBase._prepare_internal_config',
+               'xdoctest.core:parse_doctestables',
+               'xdoctest.plugin:XDoctestItem.from_parent',
+               'xdoctest.doctest_example:DocTest.unique_callname',
+               'xdoctest.doctest_example:DocTest.anything_ran',
                'xdoctest.doctest_example:DocTest._post_run',
                'xdoctest.doctest_example:DocTest.is_disabled',
                'xdoctest.doctest_example:DocTest._parse',
@@ -23,7 +30,12 @@ PROPERTY = {'id': 'C15',
                    'on_error="raise" an Exception escapes only on the recorded-failure paths; all parts skipped and mode == "pytest" raises Skipped',
                    'the output of an executed part is logged on EVERY outcome (so anything_ran() is true iff a part was executed), including '
                    'BaseException outcomes such as pytest.skip() raised by the doctest',
-                   'is_disabled(pytest=...) per its regex contract (shared with C10)'],
+                   'is_disabled(pytest=...) per its regex contract (shared with C10)',
+                   'XDoctestItem.runtest: skipped iff force-disabled (run never called) or run returned and nothing ran; any other exception '
+                   'comes out of the single run(on_error="raise") call; a normal return means run was called exactly once, in raising mode, on '
+                   "this item's doctest, and something ran",
+                   'XDoctestModule.collect: exactly one item per doctest that parse_doctestables yields for the file, in order, named by '
+                   'unique_callname (= callname:num), parsed once with the style / analysis options of the command line'],
              'T': ['compile / exec / eval / asyncio.run as oracles (pyvc/models_run.py): return a value or raise any class, write to the current '
                    'sys.stdout, may rebind sys.stdout, bind names in the dict they are given',
                    'CPython: an exception raised while running code compiled with filename F has a traceback entry of F',
@@ -33,5 +45,6 @@ PROPERTY = {'id': 'C15',
                    'evidence.assumed_contracts)',
                    'no --global-exec code is configured (DoctestConfig.global_exec is None)',
                    "pytest's mapping of exceptions to outcomes and exit status"],
-             'N/A': ['process boundaries, -p / ini handling; XDoctestItem.runtest and XDoctestModule.collect are not under contract yet']},
+             'N/A': ['process boundaries, -p / ini handling, XDoctestTextfile; that the native runner hands the same arguments to '
+                     'parse_doctestables is read from runner.doctest_module (the parse statement is outside the verified regions)']},
  'explanation': 'C15 (partial): both front ends call the same run, whose contract is independent of the caller.'}
